@@ -612,7 +612,13 @@ Definition scase_ok (c : scase) : bool :=
 Inductive case :=
 | CS (c : scase)
 | CE (id : N) (k : key) (v : list N) (top : eframe) (n_etx n_hash n_del : N) (record_left : bool)
-| CO (id : N) (class : N) (effects_left : bool).   (* a creation frame: how it ended, and whether its effects stayed *)
+| CO (id : N) (class : N) (effects_left : bool)    (* a creation frame: how it ended, and whether its effects stayed *)
+| CM (id : N) (db : smap (list N)) (top : eframe) (etxs : list N) (n_hash n_del : N).
+    (* a call tree compiled to bytecode (harness evmtree.go): every frame - entered by CALL, CALLCODE,
+       DELEGATECALL, STATICCALL, CREATE or CREATE2, all of them [ECall]: see the obligation
+       [evm_frames_covered] - sends (EEmit: ETX / CONVERT opcode) and claims lockup records of [db];
+       observed: the ids of the ETXs in the cache after the transaction's call, in order, and the
+       lengths of CoinbaseDeletedHashes and CoinbasesDeleted *)
 
 Definition ecase_ok (k : key) (v : list N) (top : eframe) (n_etx n_hash n_del : N) (record_left : bool) : bool :=
   let st0 := mkEvm [] [] [] [] [(k, v)] in
@@ -621,14 +627,20 @@ Definition ecase_ok (k : key) (v : list N) (top : eframe) (n_etx n_hash n_del : 
   && N.eqb (N.of_nat (length (e_deleted st1))) n_del
   && Bool.eqb (match get k (evm_commit (evm_tx code_fixd top st0)) with Some _ => true | None => false end) record_left.
 
+Definition mcase_ok (db : smap (list N)) (top : eframe) (etxs : list N) (n_hash n_del : N) : bool :=
+  let st1 := eexec code_fixd top (mkEvm [] [] [] [] db) in
+  sortedb db && nl_eqb (e_etxs st1) etxs && N.eqb (N.of_nat (length (e_hashes st1))) n_hash
+  && N.eqb (N.of_nat (length (e_deleted st1))) n_del.
+
 Definition case_ok (c : case) : bool :=
   match c with
   | CS c => scase_ok c
   | CE _ k v top a b d r => ecase_ok k v top a b d r
   | CO _ cl stay => Bool.eqb stay (negb (ending_reverts code_create_oog_reverts (ending_of_class cl)))
+  | CM _ db top etxs h d => mcase_ok db top etxs h d
   end.
 
 Definition case_id (c : case) : N :=
-  match c with CS (i, _, _, _) => i | CE i _ _ _ _ _ _ _ => i | CO i _ _ => i end.
+  match c with CS (i, _, _, _) => i | CE i _ _ _ _ _ _ _ => i | CO i _ _ => i | CM i _ _ _ _ _ => i end.
 Definition mismatches (cs : list case) : list N :=
   map case_id (filter (fun c => negb (case_ok c)) cs).
